@@ -60,6 +60,11 @@ func c16Long() []string {
 	for _, p := range []string{"stun:", "turns:"} {
 		for _, s := range c16Sigma {
 			out = append(out, p+strings.Repeat(s, 100000))
+			// the same after a complete host, host:port and bracketed host
+			out = append(out, p+"a"+strings.Repeat(s, 100000))
+			out = append(out, p+"a:1"+strings.Repeat(s, 100000))
+			out = append(out, p+"[::1]:1"+strings.Repeat(s, 30000))
+			out = append(out, p+"a:1?transport=udp"+strings.Repeat(s, 30000))
 		}
 		for _, n := range []int{1, 2, 3, 10, 1000, 100000} {
 			out = append(out, p+strings.Repeat("[", n)+strings.Repeat("]", n))
